@@ -12,6 +12,9 @@ CLAIMS = {
  "C02": dict(design="5/C02", tech=E1,
    text="Programs of 3 stages x behaviours plus 0..2 (quick) / 0..3 (thorough) registered actions (cleanups, patches of present/absent attributes, fixtures ok/failing/nested) at 5 registration sites are run twice on one instance; execution log (with the patched attribute's value visible in each entry) is compared with a reference interpreter of the statement; exhaustive within the bound.",
    note="Trusts CrossHair/z3 path exhaustion, fixtures 4.3.2, the reference interpreter in vf/harness/c02.py."),
+ "C06": dict(design="5/C06", tech=E1 + "; unbounded symbolic int parameters and matchees",
+   text="Matcher expression trees (all depth<=1 trees over the full alphabet, all 3964 depth-2 trees over a reduced alphabet; sequence, dict and structure combinators over leaf matchers) are built from selector opcodes; leaf parameters and matchees are unbounded symbolic ints, so each explored path covers every integer satisfying its path condition; verdict is compared with a denotational evaluator, plus determinism and non-modification.",
+   note="Ints are wrapped in an opaque ordered value (constant repr) so that message formatting does not fork on digits; regex/doctest/filesystem/warnings leaves are outside the claim."),
  "C16": dict(design="5/C16", tech=E1 + "; symbolic byte payloads, chunk sizes and offsets",
    text="Chunk reader on symbolic data bytes/chunk sizes/offsets (all values within length bound), real-file reader, chunk-independent decoding for every pair of cut positions over a class-representative alphabet, Content equality on symbolic bytes, ContentType MIME round trip over a token/value alphabet, snapshot semantics; exhaustive within the bounds.",
    note="Stream modelled by ModelStream (io.BytesIO contract); codecs are CPython's (text is a finite alphabet); open known finding F9 (charset containing a comma) is excluded by class."),
